@@ -40,14 +40,22 @@ def run(chk):
         for it in scn.items:
             live = [c.tag() for c in sh.live.values()]
             notaw = [(c.tag(), n_) for c in sh.live.values() for n_, t_ in scn.svcs if n_ not in c.out]
-            states.append((live, list(old), None, notaw))
+            states.append((live, list(old), [(c.tag(), sorted(c.out)) for c in sh.live.values()], notaw))
             before = {k: (v.tag(), sorted(v.out)) for k, v in sh.live.items()}
             sh.step(it[1].decode('latin1'))
             for k, v in before.items():
                 if k not in sh.live or sh.live[k].tag() != v[0]:
                     old.append(v)
         live = [c.tag() for c in sh.live.values()]
-        states.append((live, list(old), None, [(c.tag(), n_) for c in sh.live.values() for n_, t_ in scn.svcs if n_ not in c.out]))
+        states.append((live, list(old), [(c.tag(), sorted(c.out)) for c in sh.live.values()], [(c.tag(), n_) for c in sh.live.values() for n_, t_ in scn.svcs if n_ not in c.out]))
+        # aimed family: a known service that owes nothing answers with the correct tag while the instance awaits another one
+        aimed = [(pos, "-1 %s %s %s :%s" % (kind, svc_, tag_, txt)) for pos, st_ in enumerate(states) for c_tag, c_out in
+                 [(t_, o_) for t_, o_ in st_[2] or []] for tag_, svc_ in st_[3] if tag_ == c_tag and c_out
+                 for kind, txt in (('X', 'OK acct:9'), ('X', 'NO refused'), ('x', 'gone'))]
+        for pos, line in rng.sample(aimed, min(len(aimed), 2 if chk.tier == "quick" else 6)):
+            items = scn.items[:pos] + [('L', line.encode('latin1'))] + scn.items[pos:]
+            variants.append((Scn(scn.with_xq, scn.with_class, scn.svcs, scn.rules, scn.timeout, items, "stray reply inserted at %d" % pos), bi, pos, line))
+            chk.hist("stray:not-awaited service while another is awaited")
         positions = list(range(len(scn.items) + 1))
         rng.shuffle(positions)
         for pos in positions[: (3 if chk.tier == "quick" else 8)]:
